@@ -106,6 +106,18 @@ const MAX_KNN_K: u32 = kyrodb_engine::api_validation::MAX_KNN_K;
 /// Interval for persisting per-tenant usage snapshots to disk.
 const USAGE_EXPORT_INTERVAL_SECS: u64 = 60;
 
+/// First WAL segment or snapshot file found in `dir`, if any.
+fn find_persistence_artifact(dir: &Path) -> Option<std::path::PathBuf> {
+    let entries = std::fs::read_dir(dir).ok()?;
+    entries.filter_map(|entry| entry.ok()).find_map(|entry| {
+        let name = entry.file_name();
+        let name = name.to_string_lossy();
+        let is_wal = name.starts_with("wal_") && name.ends_with(".wal");
+        let is_snapshot = name.starts_with("snapshot_") && name.ends_with(".snap");
+        (is_wal || is_snapshot).then(|| entry.path())
+    })
+}
+
 fn unix_timestamp_secs() -> u64 {
     SystemTime::now()
         .duration_since(UNIX_EPOCH)
@@ -3571,6 +3583,22 @@ async fn main() -> anyhow::Result<()> {
     let data_dir_path = config.persistence.data_dir.clone();
     let manifest_path = data_dir_path.join("MANIFEST");
     let should_attempt_recovery = config.persistence.enable_recovery && manifest_path.exists();
+
+    // A data directory that holds WAL segments or snapshots but no MANIFEST is not a new database:
+    // the MANIFEST was lost. Initializing an empty engine here would silently drop every document
+    // and publish a fresh MANIFEST next to the orphaned files.
+    if config.persistence.enable_recovery
+        && !should_attempt_recovery
+        && !config.persistence.allow_fresh_start_on_recovery_failure
+    {
+        if let Some(artifact) = find_persistence_artifact(&data_dir_path) {
+            anyhow::bail!(
+                "MANIFEST is missing from {} but {} exists; refusing to initialize an empty database over existing data (restore the MANIFEST, or move the directory away to start fresh)",
+                data_dir_path.display(),
+                artifact.display()
+            );
+        }
+    }
 
     let create_empty_engine =
         |cache_strategy: Box<dyn kyrodb_engine::CacheStrategy>,
